@@ -5,12 +5,14 @@ set -u
 SD=/verif/seeded/$1; shift
 P=$(python3 -c "import json;print(json.load(open('$SD/meta.json'))['breaks_property'])")
 PROPS=${@:-$P}
-cd /repo || exit 2
-if [ -n "$(git status --porcelain)" ]; then echo "/repo not clean"; exit 2; fi
-git apply $SD/patch.diff || { echo "PATCH DOES NOT APPLY to /repo HEAD"; exit 3; }
+# SEEDREPO=<scratch worktree at /repo's HEAD>: use that tree instead of /repo (while /repo is busy with a long run)
+R=${SEEDREPO:-/repo}
+cd $R || exit 2
+if [ -n "$(git status --porcelain | grep -v '^??')" ]; then echo "$R not clean"; exit 2; fi
+git apply $SD/patch.diff || { echo "PATCH DOES NOT APPLY to $R HEAD"; exit 3; }
 for p in $PROPS; do
-  out=$(cd /verif && GOSYM_EVIDENCE_DIR=/tmp/seed/evidence GOSYM_NOWITNESS=1 ./check $p quick 2>&1); rc=$?
+  out=$(cd /verif && GOSYM_REPO=$R GOSYM_EVIDENCE_DIR=/tmp/seed/evidence GOSYM_NOWITNESS=1 ./check $p quick 2>&1); rc=$?
   echo "$out" | grep -E "^(VIOLATION|KNOWN|UNCONFIRMED|ERROR|  harness|check )" | cut -c1-260 | head -12
   echo "SEEDCHECK $(basename $SD) check=$p exit=$rc"
 done
-git -C /repo checkout -- .
+git -C $R checkout -- .
